@@ -829,4 +829,815 @@ example : isTrigger ⟨false⟩ (run ⟨false⟩ State.init [(0, .create 10), (0
 #print axioms inv_run
 #print axioms units_sum
 
+/-! ## Wave 2 — `stop-instance`, `save-state`, `load-state`; the global destroy balance -/
+
+/-! ### stored-state lemmas -/
+
+theorem lookupStored_mem (st : List (Nat × Nat)) (k τ : Nat) (h : lookupStored st k = some τ) : (k, τ) ∈ st := by
+  induction st with
+  | nil => simp [lookupStored] at h
+  | cons x rest ih =>
+    obtain ⟨a, b⟩ := x
+    simp only [lookupStored] at h
+    split at h
+    · rename_i e; cases h; simp [e]
+    · exact List.mem_cons_of_mem _ (ih h)
+
+theorem lookupStored_drop (st : List (Nat × Nat)) (k j τ : Nat) (h : lookupStored (dropStored st k) j = some τ) :
+    lookupStored st j = some τ := by
+  induction st with
+  | nil => simp [dropStored, lookupStored] at h
+  | cons x rest ih =>
+    obtain ⟨a, b⟩ := x
+    simp only [dropStored, List.filter_cons] at h
+    split at h
+    · rename_i hak
+      simp only [lookupStored] at h ⊢
+      split
+      · rename_i e; simpa [e] using h
+      · rename_i e; simp only [e, if_false] at h; exact ih h
+    · rename_i hak
+      have hak' : a = k := by simpa using hak
+      simp only [lookupStored]
+      have hj : j ≠ k := by
+        intro e
+        have hm := lookupStored_mem _ _ _ h
+        simp only [dropStored, List.mem_filter] at hm
+        simp [e] at hm
+      split
+      · rename_i e; exact absurd (e ▸ hak') (by omega)
+      · exact ih h
+
+theorem lookupStored_append (a b : List (Nat × Nat)) (k τ : Nat) (h : lookupStored (a ++ b) k = some τ) :
+    (k, τ) ∈ a ∨ lookupStored b k = some τ := by
+  induction a with
+  | nil => right; simpa using h
+  | cons x rest ih =>
+    obtain ⟨p, q⟩ := x
+    simp only [List.cons_append, lookupStored] at h
+    split at h
+    · rename_i e; cases h; left; simp [e]
+    · rcases ih h with h1 | h1
+      · left; exact List.mem_cons_of_mem _ h1
+      · right; exact h1
+
+/-- a stored timeout is the timeout of the live instance of that id -/
+def Cons (s : State) : Prop := ∀ i ∈ s.insts, ∀ τ, lookupStored s.stored i.id = some τ → τ = i.timeout
+
+/-- `s'` has the stored table of `s` and only instances (id, timeout) that `s` has -/
+def Sub (s' s : State) : Prop :=
+  s'.stored = s.stored ∧ ∀ j ∈ s'.insts, ∃ i ∈ s.insts, i.id = j.id ∧ i.timeout = j.timeout
+
+theorem cons_of_sub (s' s : State) (h : Sub s' s) (hc : Cons s) : Cons s' := by
+  intro j hj τ hτ
+  obtain ⟨i, hi, h1, h2⟩ := h.2 j hj
+  rw [h.1, ← h1] at hτ
+  rw [← h2]; exact hc i hi τ hτ
+
+theorem sub_sweep (now : Nat) (s : State) : Sub (sweep now s) s :=
+  ⟨rfl, fun j hj => ⟨j, ((mem_sweep now s j).mp hj).1, rfl, rfl⟩⟩
+
+theorem sub_touch (now k : Nat) (s : State) : Sub (touch now k s) s := by
+  refine ⟨rfl, ?_⟩
+  intro j hj
+  simp only [touch] at hj
+  obtain ⟨i, hi, rfl⟩ := List.mem_map.mp hj
+  exact ⟨i, hi, (touchInst_id _ _ _).symm, (touchInst_timeout _ _ _).symm⟩
+
+theorem sub_setSess (s : State) (k : Nat) (b : Bool) : Sub { s with insts := s.insts.map (setSess k b) } s := by
+  refine ⟨rfl, ?_⟩
+  intro j hj
+  obtain ⟨i, hi, rfl⟩ := List.mem_map.mp hj
+  exact ⟨i, hi, (setSess_id _ _ _).symm, (setSess_timeout _ _ _).symm⟩
+
+theorem cons_ensure (s : State) (now k : Nat) (hc : Cons s) : Cons (ensure s now k).1 := by
+  unfold ensure
+  split
+  · exact hc
+  · split
+    · exact hc
+    · rename_i τ hτ
+      intro i hi τ' hτ'
+      simp only [List.mem_append, List.mem_singleton] at hi
+      rcases hi with hi | rfl
+      · exact hc i hi τ' hτ'
+      · simp only at hτ' ⊢
+        rw [hτ] at hτ'; exact (Option.some.inj hτ').symm
+
+theorem cons_applyKind (s : State) (t : Nat) (i : Inst) (hi : i ∈ s.insts) (kind : Kind) (hinv : Inv s t) (hc : Cons s) :
+    Cons (applyKind s i kind).1 := by
+  cases kind
+  · exact cons_of_sub _ s (sub_setSess s i.id true) hc
+  · exact hc
+  · simp only [applyKind]; split
+    · intro j hj τ hτ
+      simp only [lookupStored] at hτ
+      split at hτ
+      · rename_i e
+        cases hτ
+        rw [eq_of_nodup_id _ hinv.nodup i j hi hj e]
+      · exact hc j hj τ hτ
+    · exact hc
+  · exact cons_of_sub _ s (sub_setSess s i.id false) hc
+
+theorem cons_step (c : Cfg) (s : State) (t now : Nat) (ev : Ev) (hinv : Inv s t) (ht : t ≤ now) (hc : Cons s) :
+    Cons (step c s now ev).1 := by
+  have touched : ∀ (s1 : State) (j : Nat), Cons s1 → Cons (sweep now (touch now j s1)) := fun s1 j h1 =>
+    cons_of_sub _ _ (sub_sweep now _) (cons_of_sub _ _ (sub_touch now j s1) h1)
+  cases ev with
+  | create τ =>
+    simp only [step, create]
+    have h1 := cons_of_sub _ s (sub_sweep now s) hc
+    have hi1 := inv_sweep s t now hinv
+    intro i hi τ' hτ'
+    simp only [List.mem_append, List.mem_singleton] at hi
+    rcases hi with hi | rfl
+    · exact h1 i hi τ' hτ'
+    · exact absurd (hi1.storedBound _ τ' hτ') (Nat.lt_irrefl _)
+  | access k kind =>
+    simp only [step, access]
+    have he := cons_ensure s now k hc
+    have hie := inv_ensure s t now k hinv ht
+    cases hen : ensure s now k with
+    | mk s1 b =>
+      rw [hen] at he hie
+      cases b with
+      | false => exact hc
+      | true =>
+        simp only
+        have h2 := touched s1 k he
+        have hi2 := inv_sweep _ now now (inv_touch s1 now now k hie (Nat.le_refl _))
+        cases hf : findInst (sweep now (touch now k s1)) k with
+        | none => exact h2
+        | some i => exact cons_applyKind _ now i (findInst_mem _ _ _ hf).1 kind hi2 h2
+  | keepAlive k =>
+    simp only [step, keepAlive]
+    cases hr : c.keepAliveRestores with
+    | true =>
+      simp only [if_true]
+      have he := cons_ensure s now k hc
+      cases hen : ensure s now k with
+      | mk s1 b =>
+        rw [hen] at he
+        cases b with
+        | false => exact hc
+        | true => exact touched s1 k he
+    | false =>
+      simp only [Bool.false_eq_true, if_false]
+      cases hasId s k with
+      | false => exact hc
+      | true => exact touched s k hc
+  | metrics => exact cons_of_sub _ s (sub_sweep now s) hc
+  | fullMetrics => exact cons_of_sub _ s (sub_sweep now s) hc
+
+/-! ### the new events keep the invariant -/
+
+theorem inv_stop (s : State) (t k : Nat) (h : Inv s t) : Inv (stopInst s k) t := by
+  constructor
+  · simp only [stopInst]
+    exact List.Nodup.sublist (List.Sublist.map _ List.filter_sublist) h.nodup
+  · intro i hi; exact h.bound i (List.mem_filter.mp hi).1
+  · intro i hi; exact h.lastLe i (List.mem_filter.mp hi).1
+  · intro j τ hj; exact h.storedBound j τ (lookupStored_drop _ k j τ hj)
+
+theorem cons_stop (s : State) (k : Nat) (hc : Cons s) : Cons (stopInst s k) := by
+  intro i hi τ hτ
+  exact hc i (List.mem_filter.mp hi).1 τ (lookupStored_drop _ k _ τ hτ)
+
+theorem saveState_insts (s : State) : (saveState s).1.insts = s.insts := by
+  unfold saveState; split <;> rfl
+
+theorem saveState_stored (s : State) (k τ : Nat) (h : lookupStored (saveState s).1.stored k = some τ) :
+    (∃ i ∈ s.insts, i.id = k ∧ i.timeout = τ) ∨ lookupStored s.stored k = some τ := by
+  unfold saveState at h
+  split at h
+  · rcases lookupStored_append _ _ k τ h with h1 | h1
+    · left
+      simp only [List.mem_reverse, List.mem_map, Prod.mk.injEq] at h1
+      obtain ⟨i, hi, h2, h3⟩ := h1
+      exact ⟨i, hi, h2, h3⟩
+    · right; exact h1
+  · right; exact h
+
+theorem inv_save (s : State) (t : Nat) (h : Inv s t) : Inv (saveState s).1 t := by
+  refine ⟨by rw [saveState_insts]; exact h.nodup, ?_, by rw [saveState_insts]; exact h.lastLe, ?_⟩
+  · intro i hi
+    rw [saveState_insts] at hi
+    have : (saveState s).1.next = s.next := by unfold saveState; split <;> rfl
+    rw [this]; exact h.bound i hi
+  · intro k τ hk
+    have : (saveState s).1.next = s.next := by unfold saveState; split <;> rfl
+    rw [this]
+    rcases saveState_stored s k τ hk with ⟨i, hi, h1, _⟩ | h1
+    · rw [← h1]; exact h.bound i hi
+    · exact h.storedBound k τ h1
+
+theorem cons_save (s : State) (t : Nat) (hinv : Inv s t) (hc : Cons s) : Cons (saveState s).1 := by
+  intro j hj τ hτ
+  rw [saveState_insts] at hj
+  rcases saveState_stored s j.id τ hτ with ⟨i, hi, h1, h2⟩ | h1
+  · rw [← h2, eq_of_nodup_id _ hinv.nodup i j hi hj h1]
+  · exact hc j hj τ h1
+
+theorem replaceInst_id (n i : Inst) : (replaceInst n i).id = i.id := by
+  unfold replaceInst; split
+  · rename_i e; exact e.symm
+  · rfl
+
+theorem loadOne_next (now : Nat) (s : State) (kτ : Nat × Nat) : (loadOne now s kτ).next = s.next := by
+  unfold loadOne; split <;> rfl
+
+theorem loadOne_stored (now : Nat) (s : State) (kτ : Nat × Nat) : (loadOne now s kτ).stored = s.stored := by
+  unfold loadOne; split <;> rfl
+
+theorem loadOne_destroyed (now : Nat) (s : State) (kτ : Nat × Nat) : (loadOne now s kτ).destroyed = s.destroyed := by
+  unfold loadOne; split <;> rfl
+
+theorem inv_loadOne (now : Nat) (s : State) (kτ : Nat × Nat) (h : Inv s now) (hk : kτ.1 < s.next) :
+    Inv (loadOne now s kτ) now := by
+  unfold loadOne
+  split
+  · constructor
+    · have : ∀ n : Inst, (s.insts.map (replaceInst n)).map (·.id) = s.insts.map (·.id) := by
+        intro n; simp [List.map_map, Function.comp_def, replaceInst_id]
+      simp only [this]; exact h.nodup
+    · intro i hi
+      obtain ⟨j, hj, rfl⟩ := List.mem_map.mp hi
+      rw [replaceInst_id]; exact h.bound j hj
+    · intro i hi
+      obtain ⟨j, hj, rfl⟩ := List.mem_map.mp hi
+      unfold replaceInst; split
+      · simp
+      · exact h.lastLe j hj
+    · exact h.storedBound
+  · rename_i hn
+    have hn' := (hasId_false_iff s kτ.1).mp (by simpa using hn)
+    constructor
+    · simp only [List.map_append, List.map_cons, List.map_nil]
+      rw [List.nodup_append]
+      refine ⟨h.nodup, by simp, ?_⟩
+      intro a ha b hb
+      simp at hb; subst hb
+      obtain ⟨i, hi, rfl⟩ := List.mem_map.mp ha
+      exact hn' i hi
+    · intro i hi
+      simp only [List.mem_append, List.mem_singleton] at hi
+      rcases hi with hi | rfl
+      · exact h.bound i hi
+      · exact hk
+    · intro i hi
+      simp only [List.mem_append, List.mem_singleton] at hi
+      rcases hi with hi | rfl
+      · exact h.lastLe i hi
+      · simp
+    · exact h.storedBound
+
+theorem cons_loadOne (now : Nat) (s : State) (kτ : Nat × Nat) (hc : Cons s)
+    (hk : lookupStored s.stored kτ.1 = some kτ.2) : Cons (loadOne now s kτ) := by
+  unfold loadOne
+  split
+  · intro i hi τ hτ
+    obtain ⟨j, hj, rfl⟩ := List.mem_map.mp hi
+    rw [replaceInst_id] at hτ
+    unfold replaceInst; split
+    · rename_i e
+      simp only at hτ ⊢
+      rw [e, hk] at hτ; exact (Option.some.inj hτ).symm
+    · exact hc j hj τ hτ
+  · intro i hi τ hτ
+    simp only [List.mem_append, List.mem_singleton] at hi
+    rcases hi with hi | rfl
+    · exact hc i hi τ hτ
+    · simp only at hτ ⊢
+      rw [hk] at hτ; exact (Option.some.inj hτ).symm
+
+theorem mem_storedIds (s : State) (kτ : Nat × Nat) (h : kτ ∈ storedIds s) :
+    kτ.1 < s.next ∧ lookupStored s.stored kτ.1 = some kτ.2 := by
+  simp only [storedIds, List.mem_filterMap, List.mem_range, Option.map_eq_some_iff] at h
+  obtain ⟨k, hk, τ, hτ, rfl⟩ := h
+  exact ⟨hk, hτ⟩
+
+/-- what a fold of `loadOne` over entries of the stored table preserves -/
+theorem load_fold (now : Nat) (l : List (Nat × Nat)) : ∀ (s : State) (n : Nat) (st : List (Nat × Nat)),
+    s.next = n → s.stored = st → (∀ kτ ∈ l, kτ.1 < n ∧ lookupStored st kτ.1 = some kτ.2) → Inv s now → Cons s →
+    Inv (l.foldl (loadOne now) s) now ∧ Cons (l.foldl (loadOne now) s) ∧
+    (l.foldl (loadOne now) s).destroyed = s.destroyed ∧ (l.foldl (loadOne now) s).stored = s.stored ∧
+    (l.foldl (loadOne now) s).next = s.next := by
+  induction l with
+  | nil => intro s n st _ _ _ hi hc; exact ⟨hi, hc, rfl, rfl, rfl⟩
+  | cons x rest ih =>
+    intro s n st hn hst hall hi hc
+    have hx := hall x (by simp)
+    simp only [List.foldl_cons]
+    obtain ⟨a1, a2, a3, a4, a5⟩ := ih (loadOne now s x) n st (by rw [loadOne_next]; exact hn) (by rw [loadOne_stored]; exact hst)
+      (fun kτ h => hall kτ (by simp [h])) (inv_loadOne now s x hi (by rw [hn]; exact hx.1))
+      (cons_loadOne now s x hc (by rw [hst]; exact hx.2))
+    exact ⟨a1, a2, by rw [a3, loadOne_destroyed], by rw [a4, loadOne_stored], by rw [a5, loadOne_next]⟩
+
+theorem load_props (s : State) (t now : Nat) (hinv : Inv s t) (ht : t ≤ now) (hc : Cons s) :
+    Inv (loadState s now) now ∧ Cons (loadState s now) ∧ (loadState s now).destroyed = s.destroyed := by
+  obtain ⟨a1, a2, a3, _, _⟩ := load_fold now (storedIds s) s s.next s.stored rfl rfl
+    (fun kτ h => mem_storedIds s kτ h) (inv_mono s t now hinv ht) hc
+  exact ⟨a1, a2, a3⟩
+
+/-- the invariant of wave 2: `Inv` and the consistency of stored timeouts -/
+def Inv2 (s : State) (t : Nat) : Prop := Inv s t ∧ Cons s
+
+theorem inv2_init : Inv2 State.init 0 := ⟨inv_init, by intro i hi; simp [State.init] at hi⟩
+
+theorem inv2_step (c : Cfg) (s : State) (t now : Nat) (ev : Ev2) (h : Inv2 s t) (ht : t ≤ now) :
+    Inv2 (step2 c s now ev).1 now := by
+  cases ev with
+  | old e => exact ⟨inv_step c s t now e h.1 ht, cons_step c s t now e h.1 ht h.2⟩
+  | stop k => exact ⟨inv_mono _ t now (inv_stop s t k h.1) ht, cons_stop s k h.2⟩
+  | saveState => exact ⟨inv_mono _ t now (inv_save s t h.1) ht, cons_save s t h.1 h.2⟩
+  | loadState => exact ⟨(load_props s t now h.1 ht h.2).1, (load_props s t now h.1 ht h.2).2.1⟩
+
+theorem inv2_run (c : Cfg) (evs : List (Nat × Ev2)) : ∀ (s : State) (t0 : Nat), Inv2 s t0 → wellTimed2 t0 evs = true →
+    Inv2 (run2 c s evs) (endTime2 t0 evs) := by
+  induction evs with
+  | nil => intro s t0 h _; exact h
+  | cons e rest ih =>
+    intro s t0 h hw
+    obtain ⟨t, ev⟩ := e
+    simp only [wellTimed2, Bool.and_eq_true, decide_eq_true_eq] at hw
+    exact ih _ t (inv2_step c s t0 t ev h hw.1) hw.2
+
+/-! ### alive / never early over the extended alphabet -/
+
+theorem holds_loadOne (now : Nat) (s : State) (kτ : Nat × Nat) (k τ l : Nat) (h : Holds s k τ l) (hl : l ≤ now)
+    (hk : kτ.1 = k → kτ.2 = τ) : Holds (loadOne now s kτ) k τ l := by
+  obtain ⟨i, hi, h1, h2, h3⟩ := h
+  unfold loadOne
+  split
+  · by_cases e : kτ.1 = k
+    · refine ⟨{ id := kτ.1, last := now, timeout := kτ.2, sess := true },
+        List.mem_map.mpr ⟨i, hi, by simp [replaceInst, h1, e]⟩, e, hk e, hl⟩
+    · exact ⟨i, List.mem_map.mpr ⟨i, hi, by simp [replaceInst, h1]; intro e'; exact absurd e'.symm e⟩, h1, h2, h3⟩
+  · exact ⟨i, List.mem_append_left _ hi, h1, h2, h3⟩
+
+theorem holds_load_fold (now : Nat) (k τ l : Nat) (hl : l ≤ now) (lst : List (Nat × Nat)) :
+    ∀ (s : State), (∀ kτ ∈ lst, kτ.1 = k → kτ.2 = τ) → Holds s k τ l → Holds (lst.foldl (loadOne now) s) k τ l := by
+  induction lst with
+  | nil => intro s _ h; exact h
+  | cons x rest ih =>
+    intro s hall h
+    simp only [List.foldl_cons]
+    exact ih _ (fun kτ hm => hall kτ (by simp [hm])) (holds_loadOne now s x k τ l h hl (hall x (by simp)))
+
+/-- `alive_step` over the extended alphabet: only an explicit `stop-instance` of the instance itself removes
+an instance whose timeout has not elapsed; `load-state` keeps it (timer restarted, same timeout). -/
+theorem alive_step2 (c : Cfg) (s : State) (t k τ l now : Nat) (ev : Ev2) (hinv : Inv2 s t) (h : Holds s k τ l)
+    (hl : l ≤ now) (hn : now < l + τ) (hns : ev ≠ .stop k) : Holds (step2 c s now ev).1 k τ l := by
+  cases ev with
+  | old e => exact alive_step c s k τ l now e h hl hn
+  | stop j =>
+    obtain ⟨i, hi, h1, h2, h3⟩ := h
+    have hj : j ≠ k := fun e => hns (by rw [e])
+    refine ⟨i, ?_, h1, h2, h3⟩
+    simp only [step2, stopInst, List.mem_filter]
+    exact ⟨hi, by simp [h1]; exact fun e => hj e.symm⟩
+  | saveState =>
+    obtain ⟨i, hi, h1, h2, h3⟩ := h
+    exact ⟨i, by simp only [step2]; rw [saveState_insts]; exact hi, h1, h2, h3⟩
+  | loadState =>
+    simp only [step2, loadState]
+    refine holds_load_fold now k τ l hl (storedIds s) s ?_ h
+    intro kτ hm e
+    obtain ⟨i, hi, h1, h2, _⟩ := h
+    have := hinv.2 i hi kτ.2 (by rw [h1, ← e]; exact (mem_storedIds s kτ hm).2)
+    omega
+
+theorem alive_not_destroyed2 (c : Cfg) (s : State) (t now : Nat) (ev : Ev2) (hinv : Inv2 s t) (ht : t ≤ now)
+    (k τ l : Nat) (h : Holds s k τ l) (hl : l ≤ now) (hn : now < l + τ) :
+    (step2 c s now ev).1.destroyed.count k = s.destroyed.count k := by
+  cases ev with
+  | old e => exact alive_not_destroyed c s t now e hinv.1 ht k τ l h hl hn
+  | stop j => rfl
+  | saveState => simp only [step2, saveState]; split <;> rfl
+  | loadState => simp only [step2]; rw [(load_props s t now hinv.1 ht hinv.2).2.2]
+
+theorem C17_never_early2 (c : Cfg) (s : State) (t now : Nat) (ev : Ev2) (hinv : Inv2 s t) (ht : t ≤ now)
+    (i : Inst) (hi : i ∈ s.insts) (hns : ev ≠ .stop i.id) (hgone : ∀ j ∈ (step2 c s now ev).1.insts, j.id ≠ i.id) :
+    i.last + i.timeout ≤ now := by
+  rcases Nat.lt_or_ge now (i.last + i.timeout) with hlt | hge
+  · exfalso
+    have hl : i.last ≤ now := Nat.le_trans (hinv.1.lastLe i hi) ht
+    obtain ⟨j, hj, hid, _, _⟩ := alive_step2 c s t i.id i.timeout i.last now ev hinv ⟨i, hi, rfl, rfl, Nat.le_refl _⟩ hl hlt hns
+    exact hgone j hj hid
+  · exact hge
+
+/-- `stop-instance`: the instance and its stored state are gone; its id is refused from then on -/
+theorem C17_stop_refused (c : Cfg) (s : State) (now k : Nat) (kind : Kind) :
+    hasId (stopInst s k) k = false ∧ lookupStored (stopInst s k).stored k = none ∧
+    access (stopInst s k) now k kind = (stopInst s k, false) ∧ keepAlive c (stopInst s k) now k = (stopInst s k, false) := by
+  have h1 : hasId (stopInst s k) k = false := by
+    rw [hasId_false_iff]; intro i hi
+    simp only [stopInst, List.mem_filter] at hi
+    simpa using hi.2
+  have h2 : lookupStored (stopInst s k).stored k = none := by
+    cases hl : lookupStored (stopInst s k).stored k with
+    | none => rfl
+    | some τ =>
+      have hm := lookupStored_mem _ _ _ hl
+      simp [stopInst, dropStored] at hm
+  exact ⟨h1, h2, C17_refused c _ now k kind h1 h2⟩
+
+/-! ### the global destroy balance -/
+
+/-- incarnations of id `k` ever made: its creation plus every restore (lazy, or by `load-state`) -/
+def created (s : State) (k : Nat) : Nat := if k < s.next then 1 else 0
+
+def incarnations (s : State) (k : Nat) : Nat := created s k + s.restored.count k
+
+theorem created_congr (s' s : State) (k : Nat) (h : s'.next = s.next) : created s' k = created s k := by
+  simp [created, h]
+
+/-- every incarnation is accounted for exactly once: destroyed, dropped without `destroy()`, or live -/
+def Bal (s : State) : Prop :=
+  ∀ k, incarnations s k = s.destroyed.count k + s.dropped.count k + (s.insts.map (·.id)).count k
+
+theorem count_partition (l : List Inst) (p : Inst → Bool) (k : Nat) :
+    ((l.filter p).map (·.id)).count k + ((l.filter (fun i => !p i)).map (·.id)).count k = (l.map (·.id)).count k := by
+  induction l with
+  | nil => rfl
+  | cons x xs ih =>
+    simp only [List.filter_cons]
+    cases hp : p x <;> simp [List.count_cons] <;> omega
+
+theorem bal_sweep (now : Nat) (s : State) (h : Bal s) : Bal (sweep now s) := by
+  intro k
+  have hp := count_partition s.insts (expired now) k
+  have := h k
+  have hc : created (sweep now s) k = created s k := rfl
+  simp only [incarnations, hc] at this ⊢
+  simp only [sweep, List.count_append]
+  omega
+
+theorem bal_touch (now j : Nat) (s : State) (h : Bal s) : Bal (touch now j s) := by
+  intro k
+  have := h k
+  have hc : created (touch now j s) k = created s k := rfl
+  simp only [incarnations, hc] at this ⊢
+  simp only [touch, map_touch_ids]
+  exact this
+
+theorem bal_ensure (s : State) (now j : Nat) (h : Bal s) : Bal (ensure s now j).1 := by
+  unfold ensure
+  split
+  · exact h
+  · split
+    · exact h
+    · intro k
+      have := h k
+      simp only [incarnations] at this ⊢
+      show created s k + _ = _
+      simp only [List.count_append, List.map_append, List.map_cons, List.map_nil, List.count_singleton]
+      by_cases e : j = k <;> simp [e] <;> omega
+
+theorem applyKind_ghost (s : State) (i : Inst) (kind : Kind) :
+    (applyKind s i kind).1.insts.map (·.id) = s.insts.map (·.id) ∧ (applyKind s i kind).1.destroyed = s.destroyed ∧
+    (applyKind s i kind).1.next = s.next ∧ (applyKind s i kind).1.restored = s.restored ∧
+    (applyKind s i kind).1.dropped = s.dropped := by
+  cases kind
+  · exact ⟨map_setSess_ids _ _ _, rfl, rfl, rfl, rfl⟩
+  · exact ⟨rfl, rfl, rfl, rfl, rfl⟩
+  · simp only [applyKind]; split <;> exact ⟨rfl, rfl, rfl, rfl, rfl⟩
+  · exact ⟨map_setSess_ids _ _ _, rfl, rfl, rfl, rfl⟩
+
+theorem bal_applyKind (s : State) (i : Inst) (kind : Kind) (h : Bal s) : Bal (applyKind s i kind).1 := by
+  intro k
+  obtain ⟨a, b, c, d, e⟩ := applyKind_ghost s i kind
+  have := h k
+  simp only [incarnations] at this ⊢
+  rw [created_congr _ s k c, a, b, d, e]; exact this
+
+theorem bal_step (c : Cfg) (s : State) (now : Nat) (ev : Ev) (h : Bal s) : Bal (step c s now ev).1 := by
+  cases ev with
+  | create τ =>
+    simp only [step, create]
+    have h1 := bal_sweep now s h
+    intro k
+    have := h1 k
+    simp only [incarnations, created, List.count_append, List.map_append, List.map_cons, List.map_nil, List.count_singleton] at this ⊢
+    by_cases e : (sweep now s).next = k
+    · have h1 : ¬ k < (sweep now s).next := by omega
+      have h2 : k < (sweep now s).next + 1 := by omega
+      have e' : ((sweep now s).next == k) = true := by simpa using e
+      simp only [h1, h2, e', ↓reduceIte] at this ⊢
+      omega
+    · have e' : ((sweep now s).next == k) = false := by simpa using e
+      by_cases e2 : k < (sweep now s).next
+      · have h2 : k < (sweep now s).next + 1 := by omega
+        simp only [e2, h2, e', Bool.false_eq_true, ↓reduceIte] at this ⊢
+        omega
+      · have h2 : ¬ k < (sweep now s).next + 1 := by omega
+        simp only [e2, h2, e', Bool.false_eq_true, ↓reduceIte] at this ⊢
+        omega
+  | access j kind =>
+    simp only [step, access]
+    have he := bal_ensure s now j h
+    cases hen : ensure s now j with
+    | mk s1 b =>
+      rw [hen] at he
+      cases b with
+      | false => exact h
+      | true =>
+        simp only
+        have h2 := bal_sweep now _ (bal_touch now j s1 he)
+        cases hf : findInst (sweep now (touch now j s1)) j with
+        | none => exact h2
+        | some i => exact bal_applyKind _ i kind h2
+  | keepAlive j =>
+    simp only [step, keepAlive]
+    cases hr : c.keepAliveRestores with
+    | true =>
+      simp only [if_true]
+      have he := bal_ensure s now j h
+      cases hen : ensure s now j with
+      | mk s1 b =>
+        rw [hen] at he
+        cases b with
+        | false => exact h
+        | true => exact bal_sweep now _ (bal_touch now j s1 he)
+    | false =>
+      simp only [Bool.false_eq_true, if_false]
+      cases hasId s j with
+      | false => exact h
+      | true => exact bal_sweep now _ (bal_touch now j s h)
+  | metrics => exact bal_sweep now s h
+  | fullMetrics => exact bal_sweep now s h
+
+theorem bal_stop (s : State) (j : Nat) (h : Bal s) : Bal (stopInst s j) := by
+  intro k
+  have hp := count_partition s.insts (fun i => i.id == j) k
+  have := h k
+  have hc : created (stopInst s j) k = created s k := rfl
+  simp only [incarnations, hc] at this ⊢
+  simp only [stopInst, List.count_append]
+  omega
+
+theorem bal_loadOne (now : Nat) (s : State) (kτ : Nat × Nat) (h : Bal s) : Bal (loadOne now s kτ) := by
+  intro k
+  have := h k
+  unfold loadOne
+  split
+  · have hid : (s.insts.map (replaceInst { id := kτ.1, last := now, timeout := kτ.2, sess := true })).map (·.id)
+        = s.insts.map (·.id) := by simp [List.map_map, Function.comp_def, replaceInst_id]
+    simp only [incarnations] at this ⊢
+    show created s k + _ = _
+    simp only [List.count_append, List.count_singleton, hid]
+    omega
+  · simp only [incarnations] at this ⊢
+    show created s k + _ = _
+    simp only [List.count_append, List.map_append, List.map_cons, List.map_nil, List.count_singleton]
+    omega
+
+theorem bal_load_fold (now : Nat) (l : List (Nat × Nat)) : ∀ s, Bal s → Bal (l.foldl (loadOne now) s) := by
+  induction l with
+  | nil => intro s h; exact h
+  | cons x rest ih => intro s h; exact ih _ (bal_loadOne now s x h)
+
+theorem bal_step2 (c : Cfg) (s : State) (now : Nat) (ev : Ev2) (h : Bal s) : Bal (step2 c s now ev).1 := by
+  cases ev with
+  | old e => exact bal_step c s now e h
+  | stop j => exact bal_stop s j h
+  | saveState =>
+    intro k
+    have := h k
+    simp only [step2, saveState]
+    split <;> exact this
+  | loadState => exact bal_load_fold now _ s h
+
+theorem bal_run2 (c : Cfg) (evs : List (Nat × Ev2)) : ∀ s, Bal s → Bal (run2 c s evs) := by
+  induction evs with
+  | nil => intro s h; exact h
+  | cons e rest ih => intro s h; exact ih _ (bal_step2 c s e.1 e.2 h)
+
+theorem bal_init : Bal State.init := by intro k; simp [incarnations, created, State.init]
+
+/-- **Global destroy balance.**  After every history (any events, any times), for every id: the number of
+incarnations ever made equals destroy() calls + objects dropped without destroy() + (1 if live).  Hence no
+incarnation is destroyed twice, none that is live has been destroyed, and without `stop-instance` /
+`load-state` overwrites every non-live incarnation has been destroyed exactly once. -/
+theorem C17_destroy_balance (c : Cfg) (evs : List (Nat × Ev2)) (k : Nat) :
+    let s := run2 c State.init evs
+    incarnations s k = s.destroyed.count k + s.dropped.count k + (s.insts.map (·.id)).count k :=
+  bal_run2 c evs State.init bal_init k
+
+theorem C17_destroyed_at_most_once (c : Cfg) (evs : List (Nat × Ev2)) (k : Nat) :
+    (run2 c State.init evs).destroyed.count k + (if hasId (run2 c State.init evs) k then 1 else 0)
+      ≤ incarnations (run2 c State.init evs) k := by
+  have hb := C17_destroy_balance c evs k
+  simp only at hb
+  generalize run2 c State.init evs = s at hb ⊢
+  by_cases hh : hasId s k = true
+  · obtain ⟨i, hi, hid⟩ := (hasId_iff s k).mp hh
+    have : 0 < (s.insts.map (·.id)).count k := List.count_pos_iff.mpr (List.mem_map.mpr ⟨i, hi, hid⟩)
+    simp only [hh, ↓reduceIte]; omega
+  · have hh' : hasId s k = false := by simpa using hh
+    simp only [hh', Bool.false_eq_true, ↓reduceIte]; omega
+
+/-- only `stop-instance` and `load-state` drop an object without `destroy()` -/
+theorem dropped_old (c : Cfg) (s : State) (now : Nat) (e : Ev) : (step c s now e).1.dropped = s.dropped := by
+  have hsw : ∀ (s1 : State), (sweep now s1).dropped = s1.dropped := fun _ => rfl
+  have hen : ∀ j, (ensure s now j).1.dropped = s.dropped := by
+    intro j; unfold ensure; split
+    · rfl
+    · split <;> rfl
+  cases e with
+  | create τ => rfl
+  | access j kind =>
+    simp only [step, access]
+    have := hen j
+    cases he : ensure s now j with
+    | mk s1 b =>
+      rw [he] at this
+      cases b with
+      | false => rfl
+      | true =>
+        simp only
+        cases hf : findInst (sweep now (touch now j s1)) j with
+        | none => exact this
+        | some i => simp only; rw [(applyKind_ghost _ i kind).2.2.2.2]; exact this
+  | keepAlive j =>
+    simp only [step, keepAlive]
+    cases c.keepAliveRestores with
+    | true =>
+      simp only [if_true]
+      have := hen j
+      cases he : ensure s now j with
+      | mk s1 b =>
+        rw [he] at this
+        cases b with
+        | false => rfl
+        | true => exact this
+    | false =>
+      simp only [Bool.false_eq_true, if_false]
+      cases hasId s j <;> rfl
+  | metrics => rfl
+  | fullMetrics => rfl
+
+/-! ### the property over the extended alphabet -/
+
+def lift (evs : List (Nat × Ev)) : List (Nat × Ev2) := evs.map (fun e => (e.1, Ev2.old e.2))
+
+theorem run2_lift (c : Cfg) (evs : List (Nat × Ev)) : ∀ s, run2 c s (lift evs) = run c s evs := by
+  induction evs with
+  | nil => intro s; rfl
+  | cons e rest ih => intro s; obtain ⟨t, ev⟩ := e; simp only [lift, List.map_cons, run2, run, step2]; exact ih _
+
+theorem wellTimed2_lift (evs : List (Nat × Ev)) : ∀ t0, wellTimed2 t0 (lift evs) = wellTimed t0 evs := by
+  induction evs with
+  | nil => intro t0; rfl
+  | cons e rest ih => intro t0; obtain ⟨t, ev⟩ := e; simp only [lift, List.map_cons, wellTimed2, wellTimed]; rw [← ih t]; rfl
+
+theorem endTime2_lift (evs : List (Nat × Ev)) : ∀ t0, endTime2 t0 (lift evs) = endTime t0 evs := by
+  induction evs with
+  | nil => intro t0; rfl
+  | cons e rest ih => intro t0; obtain ⟨t, ev⟩ := e; simp only [lift, List.map_cons, endTime2, endTime]; rw [← ih t]; rfl
+
+/-- `C17_core` over histories that may contain `stop-instance`, `save-state`, `load-state`, with the next
+request ranging over the extended alphabet too.  Clauses (1), (2) except the instance's own explicit
+`stop-instance`; new clauses (7) stop ⇒ gone, file gone, id refused; (8) the destroy balance. -/
+def C17_core2 (c : Cfg) : Prop :=
+  ∀ (evs : List (Nat × Ev2)), wellTimed2 0 evs = true →
+    ∀ (now : Nat), endTime2 0 evs ≤ now → ∀ (ev : Ev2),
+      let s := run2 c State.init evs
+      let s' := (step2 c s now ev).1
+      (∀ i ∈ s.insts, now < i.last + i.timeout → ev ≠ .stop i.id →
+        (∃ j ∈ s'.insts, j.id = i.id ∧ j.timeout = i.timeout ∧ i.last ≤ j.last) ∧
+        s'.destroyed.count i.id = s.destroyed.count i.id) ∧
+      (∀ i ∈ s.insts, ev ≠ .stop i.id → (∀ j ∈ s'.insts, j.id ≠ i.id) → i.last + i.timeout ≤ now) ∧
+      (∀ i ∈ s.insts, 0 < i.timeout → ∀ kind,
+        (∃ j ∈ (access s now i.id kind).1.insts, j.id = i.id ∧ j.last = now ∧ j.timeout = i.timeout) ∧
+        ((kind ≠ .step ∨ i.sess = true) → (access s now i.id kind).2 = true)) ∧
+      (∀ i ∈ s.insts, 0 < i.timeout →
+        (∃ j ∈ (keepAlive c s now i.id).1.insts, j.id = i.id ∧ j.last = now ∧ j.timeout = i.timeout) ∧
+        (keepAlive c s now i.id).2 = true) ∧
+      (∀ i ∈ s.insts, i.last + i.timeout ≤ now → isTrigger2 c s i.id ev = true →
+        (∀ j ∈ s'.insts, j.id ≠ i.id) ∧ s'.destroyed.count i.id = s.destroyed.count i.id + 1) ∧
+      (∀ k kind, hasId s k = false → lookupStored s.stored k = none →
+        access s now k kind = (s, false) ∧ keepAlive c s now k = (s, false)) ∧
+      (∀ k τ kind, hasId s k = false → lookupStored s.stored k = some τ → 0 < τ →
+        (access s now k kind).2 = true ∧
+        ∃ j ∈ (access s now k kind).1.insts, j.id = k ∧ j.last = now ∧ j.timeout = τ) ∧
+      (∀ k kind, hasId (stopInst s k) k = false ∧ lookupStored (stopInst s k).stored k = none ∧
+        access (stopInst s k) now k kind = (stopInst s k, false) ∧
+        keepAlive c (stopInst s k) now k = (stopInst s k, false)) ∧
+      (∀ k, incarnations s k = s.destroyed.count k + s.dropped.count k + (s.insts.map (·.id)).count k)
+
+def C17_keepalive_restores2 (c : Cfg) : Prop :=
+  ∀ (evs : List (Nat × Ev2)), wellTimed2 0 evs = true →
+    ∀ (now : Nat), endTime2 0 evs ≤ now →
+      let s := run2 c State.init evs
+      ∀ k τ, hasId s k = false → lookupStored s.stored k = some τ → 0 < τ →
+        (keepAlive c s now k).2 = true ∧
+        ∃ j ∈ (keepAlive c s now k).1.insts, j.id = k ∧ j.last = now ∧ j.timeout = τ
+
+def C17_full2 (c : Cfg) : Prop := C17_core2 c ∧ C17_keepalive_restores2 c
+
+theorem C17_partial2 (c : Cfg) : C17_core2 c := by
+  intro evs hw now hnow ev
+  have hinv := inv2_run c evs State.init 0 inv2_init hw
+  refine ⟨?_, ?_, ?_, ?_, ?_, ?_, ?_, ?_, ?_⟩
+  · intro i hi hlt hns
+    have hl : i.last ≤ now := Nat.le_trans (hinv.1.lastLe i hi) hnow
+    have hh : Holds (run2 c State.init evs) i.id i.timeout i.last := ⟨i, hi, rfl, rfl, Nat.le_refl _⟩
+    exact ⟨alive_step2 c _ _ i.id i.timeout i.last now ev hinv hh hl hlt hns,
+      alive_not_destroyed2 c _ _ now ev hinv hnow i.id i.timeout i.last hh hl hlt⟩
+  · intro i hi hns hg
+    exact C17_never_early2 c _ _ now ev hinv hnow i hi hns hg
+  · intro i hi hτ kind
+    exact C17_access_resets _ _ now hinv.1 hnow i hi hτ kind
+  · intro i hi hτ
+    exact C17_keepalive_resets c _ _ now hinv.1 hnow i hi hτ
+  · intro i hi hexp htr
+    cases ev with
+    | old e => exact C17_gone_after_trigger c _ _ now e hinv.1 hnow i hi hexp htr
+    | stop j => simp [isTrigger2] at htr
+    | saveState => simp [isTrigger2] at htr
+    | loadState => simp [isTrigger2] at htr
+  · intro k kind habs hst
+    exact C17_refused c _ now k kind habs hst
+  · intro k τ kind habs hst hτ
+    exact C17_restore _ _ now k τ kind hinv.1 hnow habs hst hτ
+  · intro k kind
+    exact C17_stop_refused c _ now k kind
+  · intro k
+    exact C17_destroy_balance c evs k
+
+theorem C17_full2_of_good (c : Cfg) (hc : c.keepAliveRestores = true) : C17_full2 c := by
+  refine ⟨C17_partial2 c, ?_⟩
+  intro evs hw now hnow s k τ habs hst hτ
+  exact C17_restore_keepalive c hc _ _ now k τ (inv2_run c evs State.init 0 inv2_init hw).1 hnow habs hst hτ
+
+/-- nothing was weakened: the statement over the extended alphabet implies the statement of wave 1 -/
+theorem C17_full2_implies_full (c : Cfg) (h : C17_full2 c) : C17_full c := by
+  constructor
+  · intro evs hw now hnow ev
+    have := h.1 (lift evs) (by rw [wellTimed2_lift]; exact hw) now (by rw [endTime2_lift]; exact hnow) (.old ev)
+    simp only [run2_lift] at this
+    obtain ⟨h1, h2, h3, h4, h5, h6, h7, _, _⟩ := this
+    exact ⟨fun i hi hlt => h1 i hi hlt (by simp), fun i hi hg => h2 i hi (by simp) hg, h3, h4, h5, h6, h7⟩
+  · intro evs hw now hnow
+    have := h.2 (lift evs) (by rw [wellTimed2_lift]; exact hw) now (by rw [endTime2_lift]; exact hnow)
+    simp only [run2_lift] at this
+    exact this
+
+theorem C17_witness_keepalive2 (c : Cfg) (hc : c.keepAliveRestores = false) : ¬ C17_full2 c :=
+  fun h => C17_witness_keepalive c hc (C17_full2_implies_full c h)
+
+/-! ### timeouts outside the documented contract -/
+
+/-- the code compares `now ≥ last + timeout` with a signed timeout; the machine runs on the clamped one:
+for `last ≤ now` the two tests agree -/
+theorem clamp_expiry (last now : Nat) (z : Int) (h : last ≤ now) :
+    ((last : Int) + z ≤ (now : Int)) ↔ (last + clampTimeout z ≤ now) := by
+  unfold clampTimeout; omega
+
+/-- a negative timeout: expired at once, at every later clock value -/
+theorem negative_timeout_expired (last now : Nat) (z : Int) (hz : z ≤ 0) (h : last ≤ now) :
+    expired now { id := 0, last := last, timeout := clampTimeout z, sess := false } = true := by
+  unfold expired clampTimeout
+  simp only [decide_eq_true_eq]
+  have : z.toNat = 0 := Int.toNat_eq_zero.mpr hz
+  omega
+
+/-- the rounded value is within half a microsecond of the exact quarter sum, ties to even -/
+theorem roundHalfEvenDiv4_spec (z : Int) :
+    let r := roundHalfEvenDiv4 z
+    (4 * r - 2 ≤ z ∧ z ≤ 4 * r + 2) ∧ ((z = 4 * r - 2 ∨ z = 4 * r + 2) → r % 2 = 0) := by
+  simp only [roundHalfEvenDiv4]
+  split
+  · omega
+  · split
+    · omega
+    · split <;> omega
+
+example : quarterMicros 0 0 0 0 2 0 10 = 500002 ∧ quarterMicros 0 0 0 0 0 0 (-10) = -2 ∧ quarterMicros 0 0 0 0 0 0 14 = 4 ∧
+    quarterMicros 0 0 0 1 (-40) 0 0 = 5000000 := by decide
+
+-- non-vacuity of the new events: restored short-timeout instance next to a live long-timeout one
+example : (run2 ⟨true⟩ State.init [(0, .old (.create 2000000)), (0, .old (.create 3600000000)), (1, .old (.access 0 .begin)),
+    (2, .old (.access 0 .step)), (3000000, .old .metrics), (4000000, .old (.access 0 .results)), (6000000, .old .metrics)]).insts.map (·.id)
+    = [1] := by decide
+example : let s := run2 ⟨true⟩ State.init [(0, .old (.create 1500000)), (0, .old (.create 86400000000)), (1, .old (.access 0 .begin)),
+    (2, .saveState), (3, .old (.access 1 .begin)), (4, .saveState), (2000000, .old .fullMetrics), (3000000, .loadState), (5000000, .stop 1)]
+    (s.insts.map (·.id), s.destroyed, s.dropped, s.restored) = ([0], [0], [1, 1], [0, 1]) := by decide
+
+#print axioms inv2_run
+#print axioms alive_step2
+#print axioms C17_never_early2
+#print axioms C17_stop_refused
+#print axioms C17_destroy_balance
+#print axioms C17_destroyed_at_most_once
+#print axioms dropped_old
+#print axioms C17_partial2
+#print axioms C17_full2_of_good
+#print axioms C17_full2_implies_full
+#print axioms C17_witness_keepalive2
+#print axioms clamp_expiry
+#print axioms roundHalfEvenDiv4_spec
+
 end Bptk.C17
